@@ -200,6 +200,13 @@ Section FieldVec.
     vadd (vadd a s) (vsub r s) = vadd a r.
   Proof. vunf. revert s r; induction a as [|x a IH]; intros [|y s] [|z r] E1 E2; vstep IH. Qed.
 
+  Lemma vadd_cancel_zero a r : length a = length r -> vadd a r = a -> r = vzero (length r).
+  Proof.
+    vunf. revert r; induction a as [|x a IH]; intros [|y r] E H; simpl in *; try discriminate; auto.
+    injection H as H1 H2. f_equal; [| apply IH; auto; lia].
+    transitivity ((x + y) - x); [ring | rewrite H1; ring].
+  Qed.
+
   Lemma all_zero_vzero v : Forall (fun z => z = 0) v -> v = vzero (length v).
   Proof. induction 1; simpl; auto. unfold vzero in *. simpl. congruence. Qed.
   Lemma vis0_spec v : vis0 v = true <-> v = vzero (length v).
